@@ -31,7 +31,17 @@
 (*                   candidate index per channel (SuperNet export: the     *)
 (*                   surviving branches),                                  *)
 (*           rv  |-> << per decision point: coefficients reported by the   *)
-(*                   SuperNet summary() x 10^6, else << >> >>]             *)
+(*                   SuperNet summary() x 10^6, else << >> >>,             *)
+(*           err |-> "" or the exception the library raised in this call   *)
+(*                   (or while its state was read); the trace ends there]  *)
+(* The verdict is TOTAL: an exception of the library, a theta_alpha that   *)
+(* does not have the shape of alpha, coefficients / temperature that are   *)
+(* not the ones written are PROPERTY clauses (C10.raises, C10.shape,       *)
+(* C10.domain), never an error of the validation.                          *)
+(* The sampler options in force are those GIVEN TO THE PUBLIC CONSTRUCTOR  *)
+(* (all of them are given there) until the first option update; from then  *)
+(* on they are read off the object (which options an update selects is     *)
+(* property C11).                                                          *)
 (*                                                                         *)
 (* PROPERTY clauses are evaluated on the observed values only (flags,      *)
 (* alpha, theta of the real object).  PREDICTION clauses compare the       *)
@@ -54,16 +64,23 @@ TMax == 200000
 GapMin == 499
 
 ----------------------------------------------------------------------------
-(* shape guards: nothing below may raise an evaluation error *)
+(* form guards: nothing below may raise an evaluation error *)
 ObsOK(o) ==
     /\ o.tr \in BOOLEAN /\ o.hd \in BOOLEAN /\ o.nn \in BOOLEAN /\ o.sl \in BOOLEAN
-    /\ o.sp \in {"sm", "gs", "none"}
-    /\ o.t4 \in TMin..TMax
-    /\ Len(o.al) >= 1 /\ Len(o.th) = Len(o.al)
-    /\ \A c \in DOMAIN o.al : Len(o.al[c]) >= 1 /\ Len(o.th[c]) = Len(o.al[c])
+    /\ o.sp \in {"sm", "gs", "none", "?"}       \* "?": sample_alpha is none of the three samplers
+    /\ Len(o.al) >= 1
+    /\ \A c \in DOMAIN o.al : Len(o.al[c]) >= 1
 
-\* the coefficients are in the property's domain (checked where they are set; elsewhere `Agrees` tracks them)
+\* theta_alpha has the shape of alpha (one vector per channel, one entry per candidate)
+ShapeOK(o) == Len(o.th) = Len(o.al) /\ \A c \in DOMAIN o.al : Len(o.th[c]) = Len(o.al[c])
+
+\* the coefficients / the temperature are in the property's domain (the harness only writes such values)
 AlphaOK(o) == \A c \in DOMAIN o.al : GapsAtLeast(o.al[c], GapMin)
+DomainOK(t, i) ==
+    LET e == t.ev[i] IN
+    \A d \in DOMAIN e.o :
+        /\ e.o[d].t4 \in TMin..TMax
+        /\ (e.a \in {"init", "alpha", "load"} \/ e.o[d].al # t.ev[i - 1].o[d].al) => AlphaOK(e.o[d])
 
 EventOK(t, i) ==
     LET e == t.ev[i] IN
@@ -72,7 +89,6 @@ EventOK(t, i) ==
     /\ Len(e.o) = Len(t.dp)
     /\ Len(e.rv) = Len(t.dp)
     /\ \A d \in DOMAIN e.o : ObsOK(e.o[d])
-    /\ \A d \in DOMAIN e.o : (e.a \in {"init", "alpha", "load"} \/ e.o[d].al # t.ev[i - 1].o[d].al) => AlphaOK(e.o[d])
     /\ (i > 1 => \A d \in DOMAIN e.o : Len(e.o[d].al) = Len(t.ev[i - 1].o[d].al))
     /\ \A k \in DOMAIN e.rep : e.rep[k].dp \in DOMAIN t.dp
     /\ (e.a = "fwd" => e.v \in BOOLEAN)
@@ -107,7 +123,8 @@ Loaded == [c |-> "loaded", at |-> 0, oh |-> FALSE]     \* literally the vector s
 
 \* model state rebuilt from an observation p and the history h
 Abstract(p, h) ==
-    [rank |-> p.al, hard |-> p.hd, gum |-> h.gum, dis |-> h.dis, sampler |-> p.sp, training |-> p.tr, temp |-> p.t4,
+    [rank |-> p.al, hard |-> p.hd, gum |-> h.gum, dis |-> h.dis,
+     sampler |-> IF p.sp = "?" THEN FromFlags(h.gum, h.dis) ELSE p.sp, training |-> p.tr, temp |-> p.t4,
      \* a combiner that has never sampled keeps theta_alpha aliased to alpha: nothing is predicted for it
      theta |-> [c \in DOMAIN p.al |-> IF h.smp THEN Keep ELSE Unsampled],
      fresh |-> FALSE, sampled |-> h.smp, lastinf |-> FALSE, skip |-> FALSE, sel |-> p.sl]
@@ -130,7 +147,7 @@ StepOne(k, ctor, var, s, e, o, d) ==
 
 \* does the observation o (previous observation p, checkpoint vectors ck) agree with the model state s after the event
 Agrees(o, p, ck, s) ==
-    /\ o.tr = s.training /\ o.hd = s.hard /\ o.sp = s.sampler /\ o.t4 = s.temp /\ o.sl = s.sel
+    /\ o.tr = s.training /\ o.hd = s.hard /\ (o.sp = "?" \/ o.sp = s.sampler) /\ o.t4 = s.temp /\ o.sl = s.sel
     /\ o.al = s.rank
     /\ \A c \in DOMAIN o.th :
           CASE s.theta[c] = Keep   -> o.th[c] = p.th[c]
@@ -157,9 +174,12 @@ DriftOf(t, i, hs) ==
                                                   sl |-> e.o[d].sl, th |-> e.o[d].th])
                     \o " model " \o ToString([tr |-> m.training, hd |-> m.hard, sp |-> m.sampler, t4 |-> m.temp,
                                               sl |-> m.sel, theta |-> m.theta])
+        ELSE IF \E d \in DOMAIN e.o : e.o[d].sp = "?"
+        THEN "drift:event " \o ToString(i) \o ": the sampler in force cannot be read off the object (sample_alpha is none of "
+                \o "sample_alpha_sm / _gs / _none); the options requested so far are used instead"
         ELSE ""
 
-\* history after the event
+\* history after the event.  ctor: no option has been updated since construction; rq: the options given to the constructor
 HistAfter(t, i, hs) ==
     LET e == t.ev[i] IN
     [d \in DOMAIN t.dp |->
@@ -167,9 +187,13 @@ HistAfter(t, i, hs) ==
             k == t.dp[d].k
         IN  IF i = 1
             THEN [gum |-> e.v.gum, dis |-> IF k = "sn" THEN FALSE ELSE e.v.dis,
+                  ctor |-> TRUE,
+                  rq  |-> [hd |-> e.v.hd, sp |-> FromFlags(e.v.gum, IF k = "sn" THEN FALSE ELSE e.v.dis)],
                   smp |-> t.dp[d].ctor = "model" \/ (k = "mps" /\ o.sp # "none")]
             ELSE [gum |-> IF e.a = "gumbel" /\ k = "mps" THEN e.v ELSE hs[d].gum,
                   dis |-> IF e.a = "disable" /\ k = "mps" THEN e.v ELSE hs[d].dis,
+                  ctor |-> hs[d].ctor /\ e.a \notin {"temp", "hard", "gumbel", "disable"},
+                  rq  |-> hs[d].rq,
                   smp |-> \/ hs[d].smp
                           \/ e.a = "fwd" /\ o.sp # "none"
                           \/ e.a = "load" /\ k = "mps"
@@ -183,28 +207,41 @@ Known(id, m)  == [lvl |-> "known", id |-> id, msg |-> m]
 
 Where(i, e, d, c) == "event " \o ToString(i) \o " (" \o e.a \o ") decision point " \o ToString(d)
                         \o " channel " \o ToString(c) \o ": "
-Flags(o) == ToString([training |-> o.tr, hard |-> o.hd, sampler |-> o.sp, T4 |-> o.t4, trainable |-> o.sl])
+\* the sampler options in force for the claims of event i
+Eff(t, i, d, hs) ==
+    LET e == t.ev[i]
+        o == e.o[d]
+        k == t.dp[d].k
+    IN  IF i = 1
+        THEN [hd |-> e.v.hd, sp |-> FromFlags(e.v.gum, IF k = "sn" THEN FALSE ELSE e.v.dis), by |-> "constructor arguments"]
+        ELSE IF hs[d].ctor
+        THEN [hd |-> hs[d].rq.hd, sp |-> hs[d].rq.sp, by |-> "constructor arguments"]
+        ELSE [hd |-> o.hd, sp |-> IF o.sp = "?" THEN FromFlags(hs[d].gum, hs[d].dis) ELSE o.sp, by |-> "object"]
+
+Flags(o, ef) == ToString([training |-> o.tr, hard |-> ef.hd, sampler |-> ef.sp, options_from |-> ef.by, T4 |-> o.t4,
+                          trainable |-> o.sl, object_says |-> <<o.hd, o.sp>>])
 
 \* one channel of one decision point after a sampling step (forward pass / constructor of a quantiser)
-SampledClause(t, i, e, d, c) ==
+SampledClause(t, i, e, d, c, hs) ==
     LET o  == e.o[d]
         al == o.al[c]
         th == o.th[c]
         am == ArgMax(al)
         k  == t.dp[d].k
-    IN  IF o.sp # "none" /\ ~(o.nn /\ IsProb(th))
+        ef == Eff(t, i, d, hs)
+    IN  IF ef.sp # "none" /\ ~(o.nn /\ IsProb(th))
         THEN Viol("C10.prob " \o Where(i, e, d, c) \o "theta_alpha " \o ToString(th)
-                    \o " is not a probability vector (x10^6, nonneg=" \o ToString(o.nn) \o ") under " \o Flags(o))
-        ELSE IF Deterministic(o.sp, o.hd, o.tr) /\ ~IsOneHotAt(th, am)
-        THEN IF KF_SNEvalSoft(k, o.tr, o.hd) /\ IsProb(th) /\ ArgMaxSet(th) = {am}
+                    \o " is not a probability vector (x10^6, nonneg=" \o ToString(o.nn) \o ") under " \o Flags(o, ef))
+        ELSE IF Deterministic(ef.sp, ef.hd, o.tr) /\ ~IsOneHotAt(th, am)
+        THEN IF KF_SNEvalSoft(k, o.tr, ef.hd) /\ IsProb(th) /\ ArgMaxSet(th) = {am}
              THEN Known("F41", "SuperNetCombiner in eval mode with hard_softmax=False samples the soft-max, not the one-hot at argmax(alpha): "
                                  \o Where(i, e, d, c) \o "theta_alpha " \o ToString(th))
              ELSE Viol("C10.onehot " \o Where(i, e, d, c) \o "theta_alpha " \o ToString(th)
                          \o " is not the one-hot at argmax(alpha)=" \o ToString(am) \o " alpha " \o ToString(al)
-                         \o " under " \o Flags(o))
-        ELSE IF o.sp = "gs" /\ o.tr /\ o.hd /\ ~IsOneHot(th)
+                         \o " under " \o Flags(o, ef))
+        ELSE IF ef.sp = "gs" /\ o.tr /\ ef.hd /\ ~IsOneHot(th)
         THEN Viol("C10.gumbelhard " \o Where(i, e, d, c) \o "theta_alpha " \o ToString(th)
-                    \o " is not one-hot under hard Gumbel sampling")
+                    \o " is not one-hot under hard Gumbel sampling, " \o Flags(o, ef))
         ELSE Ok
 
 \* what summary() of a SuperNet combiner designates: the largest reported coefficient
@@ -232,10 +269,10 @@ SlotClause(t, i, e, k) ==
                     \o " alpha " \o ToString(o.al))
 
 \* all results of one event, as a set
-Results(t, i) ==
+Results(t, i, hs) ==
     LET e == t.ev[i] IN
     (IF e.a = "fwd" \/ (e.a = "init" /\ e.v.smp)
-     THEN UNION {{SampledClause(t, i, e, d, c) : c \in DOMAIN e.o[d].al} : d \in DOMAIN e.o}
+     THEN UNION {{SampledClause(t, i, e, d, c, hs) : c \in DOMAIN e.o[d].al} : d \in DOMAIN e.o}
      ELSE {})
     \cup
     (IF e.a = "summary"
@@ -270,10 +307,21 @@ AddKnown(kn, kns, ids) ==
 (* Result: [v |-> "ok" or the failing PROPERTY clause, ms, kn, dr].        *)
 (***************************************************************************)
 StepRes(t, j, ms, kn, dr) ==
-    IF ~EventOK(t, j)
-    THEN [v |-> "trace: malformed or out-of-domain event " \o ToString(j), ms |-> ms, kn |-> kn, dr |-> dr]
+    LET bad(m) == [v |-> m, ms |-> ms, kn |-> kn, dr |-> dr] IN
+    IF t.ev[j].err # ""
+    THEN bad("C10.raises event " \o ToString(j) \o " (" \o t.ev[j].a \o "): " \o t.ev[j].err)
+    ELSE IF ~EventOK(t, j) THEN bad("trace: malformed event " \o ToString(j))
+    ELSE IF \E d \in DOMAIN t.ev[j].o : ~ShapeOK(t.ev[j].o[d])
+    THEN LET d == CHOOSE x \in DOMAIN t.ev[j].o : ~ShapeOK(t.ev[j].o[x]) IN
+         bad("C10.shape event " \o ToString(j) \o " (" \o t.ev[j].a \o ") decision point " \o ToString(d)
+                \o ": theta_alpha " \o ToString(t.ev[j].o[d].th) \o " does not have the shape of alpha "
+                \o ToString(t.ev[j].o[d].al) \o " (one vector per channel, one entry per candidate)")
+    ELSE IF ~DomainOK(t, j)
+    THEN bad("C10.domain event " \o ToString(j) \o " (" \o t.ev[j].a \o "): the object holds coefficients with a gap below 0.05 "
+                \o "or a temperature outside [0.05, 20] although only values of the property's domain were written: "
+                \o ToString([d \in DOMAIN t.ev[j].o |-> [t4 |-> t.ev[j].o[d].t4, al |-> t.ev[j].o[d].al]]))
     ELSE LET e     == t.ev[j]
-             res   == Results(t, j)
+             res   == Results(t, j, ms)
              viols == {r \in res : r.lvl = "viol"}
              kns   == {r \in res : r.lvl = "known"}
              \* a signature of a finding that is not listed as open is a violation
